@@ -22,6 +22,7 @@ type ReplayModel struct {
 	Expect []string            `json:"expect,omitempty"`
 	Obs    []string            `json:"obs,omitempty"`
 	Sched  []int               `json:"sched,omitempty"`
+	Gate   []string            `json:"gate,omitempty"` // order in which gated goroutines entered their next critical section
 }
 
 type namedInput struct {
@@ -83,6 +84,7 @@ func (in *Interp) BuildReplay(m smt.Model) *ReplayModel {
 		r.Obs = append(r.Obs, o.key+"="+in.obsString(o.v, m))
 	}
 	r.Sched = append(r.Sched, in.schedTrace...)
+	r.Gate = append(r.Gate, in.gateOrder...)
 	return r
 }
 
